@@ -24,7 +24,7 @@ from ser import Ids, Ser, Unsupported, rat, q as quote, deser
 from props.c04 import frac_eval, NotPoly, DivZero
 
 LEAN_MODULE = "Optyx.Props.C05"
-EXTRA_MODULES = ["Optyx.Props.PinsC05"]   # transcription anchors (harness/source_pins.py)
+EXTRA_MODULES = ["Optyx.Props.PinsC05", "Optyx.Props.LPFastTie"]   # transcription anchors (harness/source_pins.py)
 THEOREMS = [
     "Optyx.Props.C05.coeffs_sound",
     "Optyx.Props.C05.walker_sound",
@@ -42,6 +42,9 @@ THEOREMS = [
     "Optyx.Props.LPTie.const_unique",
     "Optyx.Props.LPTie.coeff_unique",
     "Optyx.Props.LPTie.walk_unique",
+    "Optyx.Props.LPFastTie.fastBinop_eq",
+    "Optyx.Props.LPFastTie.extractAll_eq",
+    "Optyx.Props.LPFastTie.aligned_iff",
     "Optyx.Props.PinsC05.anchors",
 ]
 ASSUMPTIONS = [
